@@ -286,7 +286,7 @@ def _multi_cases(tier):
                 for keys in (None, "given"):
                     for align in (False, True):
                         for sort in ((False, True) if align else (False,)):
-                            for names in (None, "a", ["a", "b"]):
+                            for names in (None, "a", ["a", "b"], ["a", "c"], ["c", "h"] if axis == "s" else "c"):
                                 for how in ("list", "glob"):
                                     yield {"part": "multi", "n": n, "variant": variant, "axis": axis, "keys": keys, "align": align, "sort": sort,
                                            "names": names, "how": how}
@@ -308,7 +308,10 @@ def _multi_files(n, variant):
                     xl = [40 + 100 * i, 60 + 100 * i, 50 + 100 * i]
             a = D.build_impl(D.spec(["x", "y"], [xl, yl], ["i", "O"], vk="f", base=1 + i, attrs={"units": "K"}))
             b = D.build_impl(D.spec(["x"], [xl], ["i"], vk="i", base=5 + i))
-            ds = Dataset([("a", a), ("b", b)])
+            # variables of another layout than the file's dimension order (x, y): transposed, and lacking the first dimension
+            c = D.build_impl(D.spec(["y", "x"], [yl, xl], ["O", "i"], vk="f", base=9 + i))
+            h = D.build_impl(D.spec(["y"], [yl], ["O"], vk="f", base=13 + i))
+            ds = Dataset([("a", a), ("b", b), ("c", c), ("h", h)])
             ds.attrs["run"] = i
             ds.write_nc(p, mode="w")
     return d, paths
@@ -342,12 +345,29 @@ def _check_multi(case):
     arg = list(paths) if case["how"] == "list" else os.path.join(d, "m*.nc")
     got = call(da.read_nc, arg, names, **kw)
     what = "read_nc({} files [{}], names={!r}, {})".format(n, case["variant"], names, kw)
+    if isinstance(exp, Raised) and isinstance(got, Raised) and (case["keys"] != "given" or axis == "s"):
+        # the Dataset-level join shares code with the multi-file read: when joining the single-file ARRAYS works for every variable,
+        # the multi-file read must work as well
+        kw2 = dict(align=case["align"], **({"sort": True} if case["sort"] else {}))
+        allok = True
+        for k in singles[0].keys():
+            arrs = [dict.__getitem__(s, k) for s in singles]
+            e2 = call(da.stack, arrs, axis="s", keys=ekeys, **kw2) if axis == "s" else call(da.concatenate, arrs, axis="x", **kw2)
+            allok = allok and not isinstance(e2, Raised)
+        if allok:
+            return bad("{}: raised {} although joining the single-file arrays of every variable works".format(what, got), klass="unexpected-exception")
     if isinstance(exp, Raised):
         return ok("raises-like-join") if isinstance(got, Raised) else bad("{}: joining the single reads raises {} but the multi-file read returned {}".format(what, exp, common.describe(got)))
     if isinstance(got, Raised):
         return bad("{}: raised {} but joining the single-file reads works".format(what, got), klass="unexpected-exception")
     if isinstance(names, str):
         m = same_result(got, dict.__getitem__(exp, names), what)
+        if not m and (case["keys"] != "given" or axis == "s"):
+            arrs = [dict.__getitem__(s, names) for s in singles]
+            kw2 = dict(align=case["align"], **({"sort": True} if case["sort"] else {}))
+            e2 = call(da.stack, arrs, axis="s", keys=ekeys, **kw2) if axis == "s" else call(da.concatenate, arrs, axis="x", **kw2)
+            if not isinstance(e2, Raised):
+                m = same_result(got, e2, what + " vs joining the single-file arrays")
         return bad(m) if m else ok("multi-var")
     if not isinstance(got, Dataset) or sorted(got.keys()) != sorted(exp.keys()):
         return bad("{}: returned {}".format(what, common.describe(got)))
@@ -355,6 +375,22 @@ def _check_multi(case):
         m = same_result(dict.__getitem__(got, k), dict.__getitem__(exp, k), "{}: variable {}".format(what, k))
         if m:
             return bad(m)
+    # "equals reading each file and stacking / concatenating the results": also variable by variable at the DimArray level (the Dataset-level
+    # join used above shares code with the multi-file read)
+    if case["keys"] != "given" or axis == "s":
+        for k in exp.keys():
+            arrs = [dict.__getitem__(s, k) for s in singles]
+            if axis == "s":
+                e2 = call(da.stack, arrs, axis="s", keys=ekeys, align=case["align"], **({"sort": True} if case["sort"] else {}))
+            elif "x" in arrs[0].dims:
+                e2 = call(da.concatenate, arrs, axis="x", align=case["align"], **({"sort": True} if case["sort"] else {}))
+            else:
+                continue
+            if isinstance(e2, Raised):
+                continue
+            m = same_result(dict.__getitem__(got, k), e2, "{}: variable {} vs joining the single-file arrays".format(what, k))
+            if m:
+                return bad(m)
     return ok("multi-ds")
 
 
